@@ -36,6 +36,7 @@ func (cr *CheckRun) CheckClient(job *EmittedJob) {
 	}
 	wf := &WriteFamily{Em: em, RF: job.RF}
 	em.W.LoopSummary = HeaderAddLoopSummary
+	em.W.LoopSummaryMatch = HeaderAddLoopMatches
 	var ops []clientOp
 	for k, idx := range job.RF.opField {
 		var op *RefOp
